@@ -320,6 +320,44 @@ fn judge_cmplx(st: &mut Stats, rng: &mut Rng) {
     st.nontrivial(h);
 }
 
+/// one live Tridiagonal<Rat> through queries (det, solve, product, convert) interleaved with in-place mutators
+/// (index writes, +=, -=, *=, /= scalar, transpose_in_place, resize), against the three-diagonal model after every step
+fn history_case(st: &mut Stats, rng: &mut Rng) {
+    st.next_case();
+    let n = rng.usize(1, 7);
+    let rv = |r: &mut Rng| Rat::int(r.int(-6, 6));
+    let mut t = gen_tri::<Rat>(rng, n, 0, &rv);
+    let mut m = t.build(rng.usize(0, 3));
+    let mut log: Vec<String> = vec![format!("start sub={:?} main={:?} sup={:?}", t.sub, t.main, t.sup)];
+    for _ in 0..rng.usize(3, 14) {
+        let c = Rat::int(rng.nzint(4));
+        let n = t.n();
+        match rng.below(11) {
+            0 | 1 => { log.push("det()".into()); if let Outcome::Ok((det, _, _)) = catch(|| exact_det_rank_inv(&t.dense())) { st.eval(); match catch(|| m.det()) { Outcome::Ok(x) => if x != det { st.violation("C05:history:det:stale-or-wrong", format!("det = {:?} expected {:?} after {:?}", x, det, log)); return; }, Outcome::Overflow => return, o => { st.violation("C05:history:det:panic", format!("{} after {:?}", o.describe(), log)); return; } } } }
+            2 | 3 => { let r: Vec<Rat> = (0..n).map(|_| rv(rng)).collect(); log.push(format!("solve({:?})", r));
+                if let Outcome::Ok(model) = catch(|| thomas_exact(&t, &r)) { st.eval(); match (model, catch(|| m.solve(&vec_to_ohsl(&r)))) {
+                    (Ok(x), Outcome::Ok(y)) => if y.vec != x { st.violation("C05:history:solve:stale-or-wrong", format!("solve = {:?} expected {:?} after {:?}", y.vec, x, log)); return; },
+                    (Ok(_), Outcome::Overflow) => return,
+                    (Ok(x), o) => { st.violation("C05:history:solve:refused-without-zero-pivot", format!("{} (solution {:?}) after {:?}", o.describe(), x, log)); return; }
+                    (Err(s), Outcome::Ok(y)) => { st.violation("C05:history:solve:returned-despite-zero-pivot", format!("zero pivot at step {} but returned {:?} after {:?}", s, y.vec, log)); return; }
+                    _ => {}
+                } } }
+            4 => { let v: Vec<Rat> = (0..n).map(|_| rv(rng)).collect(); log.push("mulvec".into()); st.eval(); match catch(|| &m * &vec_to_ohsl(&v)) { Outcome::Ok(p) => if p.vec != t.dense().mulvec(&v) { st.violation("C05:history:mulvec:wrong", format!("after {:?}", log)); return; }, Outcome::Overflow => return, o => { st.violation("C05:history:mulvec:panic", format!("{} after {:?}", o.describe(), log)); return; } } }
+            5 => { let i = rng.usize(0, n - 1); let which = rng.below(3); let (r, cidx) = if which == 0 || n == 1 { (i, i) } else if which == 1 { let k = rng.usize(0, n - 2); (k + 1, k) } else { let k = rng.usize(0, n - 2); (k, k + 1) };
+                log.push(format!("[({},{})] = {:?}", r, cidx, c)); if r == cidx { t.main[r] = c; } else if r == cidx + 1 { t.sub[cidx] = c; } else { t.sup[r] = c; }
+                if !catch(|| m[(r, cidx)] = c).is_ok() { st.violation("C05:history:index_mut:panic", format!("after {:?}", log)); return; } }
+            6 => { log.push(format!("+= {:?}", c)); t = t.map(|a| a + c); if !catch(|| m += c).is_ok() { return; } }
+            7 => { log.push(format!("-= {:?}", c)); t = t.map(|a| a - c); if !catch(|| m -= c).is_ok() { return; } }
+            8 => { log.push(format!("*= {:?}", c)); t = t.map(|a| a * c); if !catch(|| m *= c).is_ok() { return; } }
+            9 => { log.push(format!("/= {:?}", c)); t = t.map(|a| a / c); if !catch(|| m /= c).is_ok() { return; } }
+            _ => { log.push("transpose_in_place()".into()); t = Tri { sub: t.sup.clone(), main: t.main.clone(), sup: t.sub.clone() }; if !catch(|| m.transpose_in_place()).is_ok() { st.violation("C05:history:transpose_in_place:panic", format!("after {:?}", log)); return; } }
+        }
+        st.eval();
+        if !t.same(&m) { st.violation("C05:history:diagonals-differ-from-model", format!("after {:?}", log)); return; }
+    }
+    st.count("histories");
+}
+
 pub fn run(ctx: &Ctx) -> Report {
     let units = ctx.vol(8000, 400_000);
     let stats = par_run(ctx, TAG, units, |u, rng, st| {
@@ -330,10 +368,11 @@ pub fn run(ctx: &Ctx) -> Report {
             judge_f64(st, rng);
             judge_cmplx(st, rng);
             judge_conj(st, rng);
+            history_case(st, rng);
         }
     });
     let mut rep = Report::new(stats,
-        "random tridiagonal matrices n=1..12 (n=1,2 weighted x10) over Rat, CRat, f64, Complex<f64>, built through all four constructors; classes: generic nonzero, zero sub/super entries, zero pivot forced at a chosen elimination step (every step seen: see zero-pivot-steps sets), zero main entries, triangular. Per case: every (i,j) access, convert, transpose (both), det, &T*&v and T*v, solve vs exact Thomas model (solution or refusal + message), 10 arithmetic/resize forms; f64: exactly representable L*U class mirrored against the Rat model, strictly dominant class by backward error. Every case non-trivial; distinct = distinct (type,class,diagonals) hashes");
+        "random tridiagonal matrices n=1..12 (n=1,2 weighted x10) over Rat, CRat, f64, Complex<f64>, built through all four constructors; classes: generic nonzero, zero sub/super entries, zero pivot forced at a chosen elimination step (every step seen: see zero-pivot-steps sets), zero main entries, triangular. Per case: every (i,j) access, convert, transpose (both), det, &T*&v and T*v, solve vs exact Thomas model (solution or refusal + message), 10 arithmetic/resize forms; f64: exactly representable L*U class mirrored against the Rat model, strictly dominant class by backward error. Plus live-object histories (det/solve/product queries interleaved with index writes, scalar compound assignments and transpose_in_place, compared with the model after every step). Every case non-trivial; distinct = distinct (type,class,diagonals) hashes");
     rep.assumptions = vec!["refusal message accepted if it matches /zero|pivot|singular/i".into(), "f64 dominant systems: backward error <= 64*n*u".into()];
     rep.min_nontrivial = 2000;
     rep
